@@ -3,6 +3,13 @@
 // Machine-checked contracts for package interpreter (comment-only; read by /verif/bin/bornovc).
 package interpreter
 
+// ---- representation invariant (C16): every value held by a Borno array, an object, a scope table, a return signal or
+// a literal node has the canonical host representation of its Borno type.
+
+//@ cellinv E_Val v: canon(v)
+//@ cellinv MV_Str_Val v: canon(v)
+//@ cellinv H_interpreter_ControlFlowSignal_Value v: canon(v)
+
 // ---- coercions -------------------------------------------------------
 
 //@ func toNumber [C02,C10,C17]
@@ -91,3 +98,118 @@ package interpreter
 //@ ensures [noval] utils.HadRuntimeError ==> result == nil
 //@ ensures [canon] canon(result)
 //@ ensures [errs] errProto(old(utils.HadRuntimeError), utils.HadRuntimeError, old(stderrN), stderrN, stderr, operator.Line)
+
+// ---- the Callable interface (every implementation is proved against it) ----
+
+//@ iface Callable.Call [C04,C17,C16,C07]
+//@ requires [arity] arityOf(recv) == -1 || len(arguments) == arityOf(recv)
+//@ ensures [canon] result1 == nil ==> canon(result0)
+//@ ensures [err] result1 == nil || isErr(result1)
+
+// ---- math built-ins (C17) ---------------------------------------------
+
+//@ func (n NativeAbsFn) Call [C17]
+//@ ensures [count] len(arguments) != 1 ==> result1 != nil
+//@ ensures [type] len(arguments) == 1 && !isNum(arguments[0]) && !isStr(arguments[0]) ==> result1 != nil
+//@ ensures [value] len(arguments) == 1 && isNum(arguments[0]) ==> result1 == nil && result0 == mkNum(absSpec(num(arguments[0])))
+
+//@ func (n NativeSqrtFn) Call [C17]
+//@ ensures [count] len(arguments) != 1 ==> result1 != nil
+//@ ensures [type] len(arguments) == 1 && !isNum(arguments[0]) && !isStr(arguments[0]) ==> result1 != nil
+//@ ensures [value] len(arguments) == 1 && isNum(arguments[0]) ==> result1 == nil && result0 == mkNum(sqrtSpec(num(arguments[0])))
+
+//@ func (n NativeRoundFn) Call [C17]
+//@ ensures [count] len(arguments) != 1 ==> result1 != nil
+//@ ensures [type] len(arguments) == 1 && !isNum(arguments[0]) && !isStr(arguments[0]) ==> result1 != nil
+//@ ensures [value] len(arguments) == 1 && isNum(arguments[0]) ==> result1 == nil && result0 == mkNum(roundSpec(num(arguments[0])))
+
+//@ func (n NativeSinFn) Call [C17]
+//@ ensures [count] len(arguments) != 1 ==> result1 != nil
+//@ ensures [type] len(arguments) == 1 && !isNum(arguments[0]) && !isStr(arguments[0]) ==> result1 != nil
+//@ ensures [value] len(arguments) == 1 && isNum(arguments[0]) ==> result1 == nil && result0 == mkNum(ext.sin(num(arguments[0])))
+
+//@ func (n NativeCosFn) Call [C17]
+//@ ensures [count] len(arguments) != 1 ==> result1 != nil
+//@ ensures [type] len(arguments) == 1 && !isNum(arguments[0]) && !isStr(arguments[0]) ==> result1 != nil
+//@ ensures [value] len(arguments) == 1 && isNum(arguments[0]) ==> result1 == nil && result0 == mkNum(ext.cos(num(arguments[0])))
+
+//@ func (n NativeTanFn) Call [C17]
+//@ ensures [count] len(arguments) != 1 ==> result1 != nil
+//@ ensures [type] len(arguments) == 1 && !isNum(arguments[0]) && !isStr(arguments[0]) ==> result1 != nil
+//@ ensures [value] len(arguments) == 1 && isNum(arguments[0]) ==> result1 == nil && result0 == mkNum(ext.tan(num(arguments[0])))
+
+//@ func (n NativePowFn) Call [C17]
+//@ ensures [count] len(arguments) != 2 ==> result1 != nil
+//@ ensures [type] len(arguments) == 2 && ((!isNum(arguments[0]) && !isStr(arguments[0])) || (!isNum(arguments[1]) && !isStr(arguments[1]))) ==> result1 != nil
+//@ ensures [value] len(arguments) == 2 && isNum(arguments[0]) && isNum(arguments[1]) ==> result1 == nil && result0 == mkNum(ext.pow(num(arguments[0]), num(arguments[1])))
+
+//@ lemma pow_is_starstar [C17]: forall(a, F64, forall(b, F64, forall(r, Val, forall(e, Bool, binOK(token.POWER, mkNum(a), mkNum(b), r, e) ==> (!e && r == mkNum(ext.pow(a, b)))))))
+
+//@ func (n NativeClockFn) Call [C17]
+//@ ensures [value] result1 == nil && isNum(result0)
+
+//@ func (n NativeMinFn) Call [C17]
+//@ loop 1:
+//@   invariant [typed] forall(k, 0, iter+1, isNum(arguments[k]) || isStr(arguments[k]))
+//@   invariant [least] forall(k, 0, iter+1, isNum(arguments[k]) ==> !fplt(num(arguments[k]), minValue))
+//@   invariant [member] forall(k, 0, iter+1, isNum(arguments[k])) ==> exists(k, 0, iter+1, mkNum(minValue) == arguments[k])
+//@   invariant [len] iter+1 <= len(arguments)
+//@ ensures [none] len(arguments) == 0 ==> result1 != nil
+//@ ensures [empty] len(arguments) == 1 && isArr(arguments[0]) && len(arr(arguments[0])) == 0 ==> result1 != nil
+//@ ensures [type] exists(k, 0, len(flat(arguments)), !isNum(elem(flat(arguments), k)) && !isStr(elem(flat(arguments), k))) ==> result1 != nil
+//@ ensures [ok] len(flat(arguments)) > 0 && forall(k, 0, len(flat(arguments)), isNum(elem(flat(arguments), k))) ==> result1 == nil && isNum(result0)
+//@ ensures [least] result1 == nil ==> isNum(result0) && forall(k, 0, len(flat(arguments)), isNum(elem(flat(arguments), k)) ==> !fplt(num(elem(flat(arguments), k)), num(result0)))
+//@ ensures [member] result1 == nil && forall(k, 0, len(flat(arguments)), isNum(elem(flat(arguments), k))) ==> exists(k, 0, len(flat(arguments)), result0 == elem(flat(arguments), k))
+
+//@ func (n NativeMaxFn) Call [C17]
+//@ loop 1:
+//@   invariant [typed] forall(k, 0, iter+1, isNum(arguments[k]) || isStr(arguments[k]))
+//@   invariant [greatest] forall(k, 0, iter+1, isNum(arguments[k]) ==> !fpgt(num(arguments[k]), maxValue))
+//@   invariant [member] forall(k, 0, iter+1, isNum(arguments[k])) ==> exists(k, 0, iter+1, mkNum(maxValue) == arguments[k])
+//@   invariant [len] iter+1 <= len(arguments)
+//@ ensures [none] len(arguments) == 0 ==> result1 != nil
+//@ ensures [empty] len(arguments) == 1 && isArr(arguments[0]) && len(arr(arguments[0])) == 0 ==> result1 != nil
+//@ ensures [type] exists(k, 0, len(flat(arguments)), !isNum(elem(flat(arguments), k)) && !isStr(elem(flat(arguments), k))) ==> result1 != nil
+//@ ensures [ok] len(flat(arguments)) > 0 && forall(k, 0, len(flat(arguments)), isNum(elem(flat(arguments), k))) ==> result1 == nil && isNum(result0)
+//@ ensures [greatest] result1 == nil ==> isNum(result0) && forall(k, 0, len(flat(arguments)), isNum(elem(flat(arguments), k)) ==> !fpgt(num(elem(flat(arguments), k)), num(result0)))
+//@ ensures [member] result1 == nil && forall(k, 0, len(flat(arguments)), isNum(elem(flat(arguments), k))) ==> exists(k, 0, len(flat(arguments)), result0 == elem(flat(arguments), k))
+
+// ---- array built-ins (C11) --------------------------------------------
+
+//@ func (n NativeLenFn) Call [C11,C16]
+//@ ensures [count] len(arguments) != 1 ==> result1 != nil
+//@ ensures [type] len(arguments) == 1 && !isArr(arguments[0]) ==> result1 != nil
+//@ ensures [value] len(arguments) == 1 && isArr(arguments[0]) ==> result1 == nil && result0 == mkNum(i2f(len(arr(arguments[0]))))
+//@ ensures [pure] forall(r, Int, arrRow(r) == old(arrRow(r)))
+
+//@ func (n NativeAppendFn) Call [C11]
+//@ ensures [count] len(arguments) < 2 ==> result1 != nil
+//@ ensures [type] len(arguments) >= 2 && !isArr(arguments[0]) ==> result1 != nil
+//@ ensures [ok] len(arguments) >= 2 && isArr(arguments[0]) ==> result1 == nil && isArr(result0)
+//@ ensures [len] result1 == nil ==> len(arr(result0)) == len(arr(arguments[0])) + len(arguments) - 1
+//@ ensures [prefix] result1 == nil ==> forall(k, 0, len(arr(arguments[0])), elem(arr(result0), k) == old(elem(arr(arguments[0]), k)))
+//@ ensures [suffix] result1 == nil ==> forall(k, 0, len(arguments)-1, elem(arr(result0), len(arr(arguments[0]))+k) == old(arguments[k+1]))
+//@ ensures [frame] forall(r, Int, old(arrAllocated(r)) ==> arrRow(r) == old(arrRow(r)))
+//@ ensures [fresh] result1 == nil ==> !old(arrAllocated(ref(arr(result0))))
+
+//@ func (n NativeRemoveFn) Call [C11]
+//@ ensures [count] len(arguments) != 2 ==> result1 != nil
+//@ ensures [type] len(arguments) == 2 && !isArr(arguments[0]) ==> result1 != nil
+//@ ensures [index] len(arguments) == 2 && isArr(arguments[0]) && isNum(arguments[1]) && !(intOK(num(arguments[1])) && 0 <= int(intOf(num(arguments[1]))) && int(intOf(num(arguments[1]))) < len(arr(arguments[0]))) ==> result1 != nil
+//@ ensures [nonnum] len(arguments) == 2 && !isNum(arguments[1]) && !isStr(arguments[1]) ==> result1 != nil
+//@ ensures [len] result1 == nil ==> isArr(result0) && len(arr(result0)) == len(arr(arguments[0])) - 1
+//@ ensures [prefix] result1 == nil && isNum(arguments[1]) ==> forall(k, 0, int(intOf(num(arguments[1]))), elem(arr(result0), k) == old(elem(arr(arguments[0]), k)))
+//@ ensures [suffix] result1 == nil && isNum(arguments[1]) ==> forall(k, int(intOf(num(arguments[1]))), len(arr(arguments[0]))-1, elem(arr(result0), k) == old(elem(arr(arguments[0]), k+1)))
+//@ ensures [frame] forall(r, Int, old(arrAllocated(r)) ==> arrRow(r) == old(arrRow(r)))
+//@ ensures [fresh] result1 == nil ==> !old(arrAllocated(ref(arr(result0))))
+
+// ---- object built-ins (C12) -------------------------------------------
+
+//@ func (n NativeDeleteFn) Call [C12]
+//@ ensures [count] len(arguments) != 2 ==> result1 != nil
+//@ ensures [type] len(arguments) == 2 && (!isObj(arguments[0]) || !isStr(arguments[1])) ==> result1 != nil
+//@ ensures [absent] len(arguments) == 2 && isObj(arguments[0]) && isStr(arguments[1]) && !old(objHas(obj(arguments[0]), str(arguments[1]))) ==> result1 != nil
+//@ ensures [present] len(arguments) == 2 && isObj(arguments[0]) && isStr(arguments[1]) && old(objHas(obj(arguments[0]), str(arguments[1]))) ==> result1 == nil && objDom(obj(arguments[0])) == store(old(objDom(obj(arguments[0]))), str(arguments[1]), false)
+//@ ensures [errframe] result1 != nil ==> forall(r, Int, objDom(r) == old(objDom(r)))
+//@ ensures [others] forall(r, Int, len(arguments) == 2 && r != obj(arguments[0]) ==> objDom(r) == old(objDom(r)))
+//@ ensures [values] forall(r, Int, objVals(r) == old(objVals(r)))
